@@ -14,10 +14,11 @@
 from __future__ import annotations
 
 import ast
+import re
 
 from .. import bits as B
 from ..absmachine import AbsMachine, Obj, Outcome, UNKNOWN
-from ..astx import call_name, calls, walk_local
+from ..astx import canon_locals, call_name, calls, walk_local
 from ..cfg import CFG
 from ..exctable import ExcTable
 from ..explore import Explorer
@@ -160,7 +161,8 @@ def roundtrip(chk: Check, repo: Repo, cname: str, notation: str | None, fields: 
             n = call_name(c)
             if n.endswith("ADDRESS_RE.match"):
                 return [Outcome(None, Obj("Match", "m"))]
-            if n == "match.group":
+            recv = env.get(c.func.value.id) if isinstance(c.func, ast.Attribute) and isinstance(c.func.value, ast.Name) else None
+            if n.endswith(".group") and isinstance(recv, Obj) and recv.cls == "Match":
                 g = repo.fold(c.args[0], ps.module, cls)
                 return [Outcome(None, vals.get(g))]
             if n == "int":
@@ -268,11 +270,22 @@ def raw_invariant(chk: Check, repo: Repo, cname: str) -> None:
 def internal(chk: Check, repo: Repo) -> None:
     ini = repo.func(M, "InternalGroupAddress.__init__")
     chk.unit(ini)
-    src = {ast.unparse(n.targets[0]): ast.unparse(n.value) for n in walk_local(ini.node) if isinstance(n, ast.Assign) and len(n.targets) == 1}
-    ok = src.get("self.raw") in ("f'i-{_raw}'",) and src.get("_raw") == "address[prefix_length:].strip()"
-    tests = [ast.unparse(n.test) for n in walk_local(ini.node) if isinstance(n, ast.If)]
-    ok = ok and "address[1] in '-_'" in tests and "not _raw" in tests and any("address[0].lower() != 'i'" in t for t in tests)
-    chk.ob("internal-address-normal-form", ini.site(), ok, f"stored text = {src.get('self.raw')} with _raw = {src.get('_raw')}; prefix tests {tests}: re-parsing 'i-' + stripped text strips exactly the two prefix characters again (idempotent)", key="internal-normal-form")
+    cfn, names = canon_locals(ini.node)  # locals named v0, v1, ... by order of first binding: the rule does not depend on their names
+    src = {ast.unparse(n.targets[0]): ast.unparse(n.value) for n in walk_local(cfn) if isinstance(n, ast.Assign) and len(n.targets) == 1}
+    stored = next((n.value for n in walk_local(cfn) if isinstance(n, ast.Assign) and len(n.targets) == 1 and ast.unparse(n.targets[0]) == "self.raw" and isinstance(n.value, ast.JoinedStr)), None)
+    rest = None
+    if stored is not None and len(stored.values) == 2 and isinstance(stored.values[0], ast.Constant) and stored.values[0].value == "i-" and isinstance(stored.values[1], ast.FormattedValue) and isinstance(stored.values[1].value, ast.Name):
+        rest = stored.values[1].value.id
+    rdef = src.get(rest or "?", "")
+    m_ = re.fullmatch(r"address\[(\w+):\]\.strip\(\)", rdef)
+    plen = m_.group(1) if m_ else None
+    plen_defs = sorted(ast.unparse(n.value) for n in walk_local(cfn) if isinstance(n, ast.Assign) and len(n.targets) == 1 and ast.unparse(n.targets[0]) == plen)
+    ok = rest is not None and plen is not None and plen_defs == ["1", "2"]
+    tests = [ast.unparse(n.test) for n in walk_local(cfn) if isinstance(n, ast.If)]
+    ok = ok and "address[1] in '-_'" in tests and f"not {rest}" in tests and any("address[0].lower() != 'i'" in t for t in tests)
+    two = [n for n in walk_local(cfn) if isinstance(n, ast.If) and ast.unparse(n.test) == "address[1] in '-_'"]
+    ok = ok and len(two) == 1 and [ast.unparse(x) for x in two[0].body] == [f"{plen} = 2"] and not two[0].orelse
+    chk.ob("internal-address-normal-form", ini.site(), ok, f"stored text = 'i-' + <rest> with <rest> = {rdef or '?'} (prefix length {plen_defs}: 2 exactly when the second character is '-' or '_'); prefix tests {tests}: re-parsing 'i-' + stripped text strips exactly the two prefix characters again (idempotent)", key="internal-normal-form")
     sm = repo.func(M, "InternalGroupAddress.__str__")
     r = [n for n in walk_local(sm.node) if isinstance(n, ast.Return)]
     chk.ob("internal-address-normal-form", sm.site(), len(r) == 1 and ast.unparse(r[0].value) == "self.raw", "__str__ returns the stored text", key="internal-str")
